@@ -25,6 +25,7 @@ REGISTRY["SELFTEST"] = {
     "obligations": [
         ob("selftest::selftest_must_fail", "pipeline self-test: must be reported FAILED and replay natively", "u64"),
         ob("selftest::selftest_vacuous_cover", "pipeline self-test: unsatisfiable cover must be reported BROKEN", "u8"),
+        ob("selftest::selftest_array_any", "pipeline self-test: array-valued nondeterminism must replay natively", "[u8;3],[u16;2],bool"),
     ],
 }
 
@@ -61,54 +62,97 @@ REGISTRY["C14"] = {
         ob("c14::c14_new_i64_all_values",
            "new_i64(v): stored bytes are the minimal two's complement encoding, read back equal", "all i64",
            timeout=900),
-    ],
+    ] + [ob(h, "C14/ assertions of the allocator step harness: " + w, "one operation from the symbolic pre-state",
+            timeout=1200, checks="nomem")
+         for h, w in [("c12::c12_step_new_atom%d_contents" % n, "new_atom bytes read back; earlier nodes unchanged") for n in range(6)] +
+                     [("c12::c12_step_new_small_number_contents", "small number reads back; earlier nodes unchanged"),
+                      ("c12::c12_step_new_pair_contents", "pair children read back; earlier nodes unchanged"),
+                      ("c12::c12_step_new_substr_heap_contents", "substr bytes = parent slice"),
+                      ("c12::c12_step_new_substr_view_contents", "substr of a view: bytes = parent slice"),
+                      ("c12::c12_step_new_substr_inline_contents", "substr of an inline integer: bytes = parent slice"),
+                      ("c12::c12_step_checkpoint_full_contents", "nodes older than a checkpoint survive a restore and later allocations"),
+                      ("c12::c12_step_checkpoint_transparent_contents", "nodes older than a transparent checkpoint survive")]],
 }
 
 REGISTRY["C29"] = {
-    "explanation": "The real LimitedWriter and node_to_stream (the two pieces node_to_bytes_limit composes) are run "
-                   "on symbolic trees with a symbolic limit and compared with the unlimited serializer: Ok(identical "
-                   "bytes) iff len <= limit, otherwise exactly EvalErr::OutOfMemory, wherever the crossing byte falls "
-                   "(cons marker, length prefix, atom body).",
-    "outside": "trees with more than 2 pairs, atoms longer than 4 bytes with symbolic content; the back-reference "
-               "serializer's search structure (HashMap keyed by SHA-256) is not encoded",
+    "explanation": "The real LimitedWriter, write_atom and node_to_stream (the pieces node_to_bytes_limit composes; "
+                   "node_to_bytes_backrefs_limit composes the same LimitedWriter, write_atom and f.write_all(&[marker])? "
+                   "pieces) are run with a symbolic limit on symbolic contents and compared with the unlimited "
+                   "serializer: Ok(identical bytes) iff len <= limit, otherwise exactly EvalErr::OutOfMemory, wherever "
+                   "the crossing byte falls (cons marker, length prefix, atom body).",
+    "outside": "atoms longer than 3 bytes (prefixes longer than one byte), trees with more than 2 pairs; the "
+               "back-reference serializer's search structure (HashMap keyed by SHA-256) is not encoded, only the "
+               "writer/marker pieces it shares with the classic serializer",
     "assumptions": ["output sink is a fixed-size buffer instead of Cursor<Vec<u8>> (Vec growth is not the subject)"],
     "obligations": [
-        ob("c29::c29_classic_single_atom", "one atom, limit crossing in prefix or body",
-           "atom 0..=4 symbolic bytes, limit 0..=6", timeout=600,
-           unwindset=[("node_to_stream", 3), ("write_all", 3), ("FixedBuf", 7), ("fits_in_small_atom", 6)]),
-        ob("c29::c29_classic_tree_2pairs", "all trees/DAGs, crossing on cons marker, prefix or body",
-           "1..=2 pairs over two symbolic atoms of 0..=2 bytes, limit 0..=12", timeout=900,
-           unwindset=[("node_to_stream", 9), ("write_all", 3), ("FixedBuf", 4), ("fits_in_small_atom", 6),
-                      ("Pool", 4), ("check_limit", 14)]),
+        ob("c29::c29_atom_len0", "write_atom of the empty atom through LimitedWriter", "limit 0..=4", timeout=600, checks="nomem"),
+        ob("c29::c29_atom_len1", "one-byte atom, any byte (with and without 0x81 prefix)", "limit 0..=5", timeout=600, checks="nomem"),
+        ob("c29::c29_atom_len2", "two-byte atom, any content: crossing in prefix or body", "limit 0..=6", timeout=600, checks="nomem"),
+        ob("c29::c29_atom_len3", "three-byte atom, any content", "limit 0..=7", timeout=600, checks="nomem"),
+        ob("c29::c29_tree_pair", "(x . y), x 2-byte view, y 1-byte view: crossing on cons marker, prefix, body",
+           "limit 0..=6, contents symbolic", timeout=1500, checks="nomem", unwind=12),
+        ob("c29::c29_tree_left_nested", "((x . y) . nil)", "limit 0..=8", tier="thorough", timeout=2400, checks="nomem", unwind=12),
+        ob("c29::c29_tree_right_nested_inline", "(x . (0x1234 . nil)) with an inline integer leaf", "limit 0..=10",
+           tier="thorough", timeout=2400, checks="nomem", unwind=12),
+        ob("c29::c29_tree_shared", "((y . 5) . (y . 5)) with a shared sub-tree", "limit 0..=10", tier="thorough",
+           timeout=2400, checks="nomem", unwind=12),
     ],
 }
 
-_ALLOC_STEPS = [
-    ("c12::c12_step_new_atom", "new_atom of any content", "content 0..=5 symbolic bytes"),
-    ("c12::c12_step_new_small_number", "new_small_number of any value", "all v < 2^26"),
-    ("c12::c12_step_new_pair", "new_pair of any two existing nodes", "children among heap/view/inline/pair nodes"),
-    ("c12::c12_step_add_ghost", "add_ghost_atom / add_ghost_pair of any amount", "amount 0..=125,000,000"),
-    ("c12::c12_step_new_substr", "new_substr of a heap atom, a view and an inline atom", "all u32 bounds"),
-    ("c12::c12_step_new_concat", "new_concat of 0..=3 terms of any representation, any declared size", "size 0..=32"),
-    ("c12::c12_step_checkpoints", "checkpoint / batch of 5 allocations / full or transparent restore / one more allocation", "batch of 5"),
-]
-_PRE = ("pre-state: Allocator::new_limited(any limit in 7..=2^32-1), a 6-byte symbolic heap atom, a view of it with "
-        "symbolic bounds, an inline small integer of symbolic value, a pair, add_ghost_atom/add_ghost_pair(any amount up "
-        "to the cap) - i.e. any distance from each of the three caps")
+_PRE = ("pre-state built through the public API: a 6-byte symbolic heap atom, a view of it (symbolic bounds in the "
+        "_limits variants), an inline small integer of symbolic value, a pair, add_ghost_atom/add_ghost_pair(any "
+        "amount up to the cap) - any distance from the atom and pair caps; heap: concrete limit 47 with a symbolic "
+        "number of 6-byte single-term concats so that heap_size is anywhere in 7..=47 (_limits variants), or a "
+        "concrete limit 11..64 with every pre-existing node re-read afterwards (_contents variants)")
+
+def _steps():
+    L = []
+    for n in range(6):
+        L.append((f"c12::c12_step_new_atom{n}", f"new_atom of any {n}-byte content"))
+    L += [("c12::c12_step_new_small_number", "new_small_number of any value < 2^26"),
+          ("c12::c12_step_new_pair", "new_pair of any two existing nodes (heap/view/inline/pair)"),
+          ("c12::c12_step_add_ghost", "add_ghost_atom / add_ghost_pair of any amount <= 125,000,000"),
+          ("c12::c12_step_new_substr_heap", "new_substr of a heap atom, all u32 bounds"),
+          ("c12::c12_step_new_substr_view", "new_substr of a view, all u32 bounds"),
+          ("c12::c12_step_new_substr_inline", "new_substr of an inline small integer, all u32 bounds"),
+          ("c12::c12_step_checkpoint_full", "checkpoint, batch of allocations, restore_checkpoint, one more allocation"),
+          ("c12::c12_step_checkpoint_transparent", "transparent_checkpoint, batch, restore_transparent_checkpoint, one more allocation")]
+    out = []
+    for h, w in L:
+        out.append((h + "_limits", w + " [near the caps]"))
+        out.append((h + "_contents", w + " [existing contents re-read]"))
+    for h, w in [("c12::c12_step_new_concat0_limits", "new_concat of no terms, any declared size"),
+                 ("c12::c12_step_new_concat0_contents", "new_concat of no terms [contents]"),
+                 ("c12::c12_step_new_concat1_heap_limits", "new_concat of one heap atom"),
+                 ("c12::c12_step_new_concat1_view_limits", "new_concat of one view"),
+                 ("c12::c12_step_new_concat1_inline_limits", "new_concat of one inline integer"),
+                 ("c12::c12_step_new_concat1_inline_contents", "new_concat of one inline integer [contents]"),
+                 ("c12::c12_step_new_concat2_heap_inline_limits", "new_concat(heap, inline), any declared size <= 32"),
+                 ("c12::c12_step_new_concat2_inline_view_limits", "new_concat(inline, view)"),
+                 ("c12::c12_step_new_concat2_view_heap_limits", "new_concat(view, heap)"),
+                 ("c12::c12_step_new_concat2_inline_inline_limits", "new_concat(inline, inline)"),
+                 ("c12::c12_step_new_concat3_heap_view_inline_limits", "new_concat(heap, view, inline)")]:
+        out.append((h, w))
+    return out
+
+_ALLOC_OBS = [ob(h, w, "one operation from the symbolic pre-state; unwind 8", timeout=1200, checks="nomem") for h, w in _steps()]
 
 REGISTRY["C12"] = {
-    "explanation": "Inductive-step formulation: one allocator operation from a symbolic pre-state built through the public "
-                   "API, counts compared with the three-counter reference model. " + _PRE,
-    "outside": "atoms longer than 6 bytes, concat of more than 3 terms, sequences longer than the stated step "
-               "(the step argument extends to histories because the pre-state ranges over all counter values)",
-    "obligations": [ob(h, w, b + "; " + "unwind 8", timeout=900) for h, w, b in _ALLOC_STEPS],
+    "explanation": "Inductive-step formulation: one allocator operation from a symbolic pre-state, counts compared with the "
+                   "three-counter reference model (every atom a separately stored byte string). " + _PRE,
+    "outside": "atoms longer than 6 bytes, concat of more than 3 terms; heap limits other than the concrete ones used; "
+               "maybe_restore_with_node is checked under C04. The step argument extends to histories because the "
+               "pre-state ranges over all counter values; that extension is an argument, not a solver result.",
+    "obligations": _ALLOC_OBS,
 }
 REGISTRY["C13"] = {
-    "explanation": "Same single-step harnesses as C12; the C13/ assertions state: an operation fails with the right error "
-                   "only when completing it would exceed the cap, succeeds only when it would not, counts never exceed "
-                   "caps afterwards, failed operations leave counts and existing contents unchanged. " + _PRE,
-    "outside": "run_program-level allocation near caps (covered only through the operator harnesses)",
-    "obligations": [ob(h, w, b + "; " + "unwind 8", timeout=900) for h, w, b in _ALLOC_STEPS],
+    "explanation": "Same single-step harnesses as C12 (verdicts are shared through the goto-binary cache); the C13/ "
+                   "assertions state: an operation fails with the right error only when completing it would exceed the cap, "
+                   "succeeds only when it would not, counts never exceed caps afterwards, failed operations leave counts and "
+                   "existing contents unchanged. " + _PRE,
+    "outside": "heap limits other than the concrete values 11..64 (distance to the limit is symbolic, the limit is not); "
+               "run_program-level allocation near caps (only through the allocator operations it calls)",
+    "obligations": _ALLOC_OBS,
 }
 
 REGISTRY["C09"] = {
